@@ -22,7 +22,7 @@ ASSUMPTIONS = [
     "lines of one list hold disjoint groups of the sorted set (the canonical way devices print long lists)",
 ]
 EXHAUSTIVE = {"quick": True, "thorough": False}
-FLOORS = {"quick": {"patches_simulated": 20000, "commands_parsed": 20000, "multi_line_cases": 10000, "helper_roundtrips": 2000, "block_cases": 10000, "block_cases_with_changed_blocks": 5000, "lag_member_cases": 1500, "lists_spelled_with_blanks": 3000, "long_first_lists": 40, "cases_with_rows_of_another_diff_logic_between_rows_of_the_lists_logic": 2000, "patches_computed_under_an_acl": 5000},
+FLOORS = {"quick": {"patches_simulated": 20000, "commands_parsed": 20000, "multi_line_cases": 10000, "helper_roundtrips": 2000, "block_cases": 10000, "block_cases_with_changed_blocks": 5000, "lag_member_cases": 1500, "lists_spelled_with_blanks": 3000, "long_first_lists": 40, "cases_with_rows_of_another_diff_logic_between_rows_of_the_lists_logic": 2000, "patches_computed_under_an_acl": 5000, "cases_with_a_range_across_a_power_of_ten": 80},
           "thorough": {"patches_simulated": 600000, "commands_parsed": 600000, "multi_line_cases": 300000, "helper_roundtrips": 50000, "block_cases": 300000, "block_cases_with_changed_blocks": 150000, "lag_member_cases": 40000}}
 U_QUICK = [2, 3, 4, 7, 8]
 U_THOROUGH = [2, 3, 4, 7, 8, 10, 11, 20]
@@ -293,6 +293,12 @@ def run_kind(spec, acc):
         so = sorted(set(rng.sample(base, min(n1, 80)) + [x + 1 for x in rng.sample(base, 10)]))
         sn = sorted(set(rng.sample(base, min(n2, 80)) + [x + 1 for x in rng.sample(base, 10) if x < 4094]))
         so = [x for x in so if x <= 4094]
+        if _ % 4 == 1:
+            # ranges whose bounds have a different number of digits (`8 to 12`, `95 to 105`, `995 to 1003`), one end moving
+            lo_, hi_ = rng.choice([(8, 12), (95, 105), (995, 1003), (5, 21), (98, 101)])
+            so = sorted(set(so) | set(range(lo_, hi_ + 1)))
+            sn = sorted(set(sn) | set(range(lo_, hi_ + 1 - rng.choice([1, 2]))))
+            acc.count("cases_with_a_range_across_a_power_of_ten")
         if _ % 4 == 3:
             so = []        # the port (or the device) had no list at all: every range of a long first list must survive the later commands
             acc.count("long_first_lists", 1 if len(ranges(sn)) > 5 else 0)
